@@ -30,6 +30,10 @@ CHECKS = {
          "Fault enumeration + exploration: 5k (quick) / 200k (thorough) generated schemas must load; each with every applicable single injected violation (54k / 6M faulted schemas, all 36 rule codes reached, counted per code) must be rejected; 20k / 500k random SDL documents judged in the direction violation => rejected. Every loaded schema is walked: type references, interface/union member kinds, PossibleTypes/Implements equal the relations implied by the definitions (no nil, pointer identity), built-ins, roots, introspection fields.",
          "Trusts the rule checker (written from the property's rule list and spec section 3) and the C06-checked parser used to read SDL back into the model; rules the loader enforces beyond the enumeration are recognised and not judged. Two defects repaired (4ab1531, adc721d).",
          "DESIGN.md §4 C07"),
+ "C08": ("three-way reference-model monitor: schema-directed valid-by-construction document generator, 45-entry fault catalogue (at least one per rule) and a reference validator written from the specification's algorithms vs validator.Validate; emptiness of the error list compared",
+         "Fault enumeration + exploration: 2k (quick) / 50k (thorough) generated schemas x 8 valid documents each (must be accepted), each with two single faults (must be rejected, counted per fault class and reference reason code), multi-fault and type-blind documents judged by the reference validator alone; ~49k documents quick, ~1.2M thorough.",
+         "Trusts the reference validator (spec section 5 algorithms: CollectFields, FieldsInSetCanMerge/SameResponseShape, IsVariableUsageAllowed, literal coercion tables, plus the library's root-type and introspection-depth rules); abstains where the specification is silent. Twelve defects repaired in validator rules and walker (see known_findings.json).",
+         "DESIGN.md §4 C08"),
  "C12": ("round-trip monitor: model(parse(x)) = model(parse(format_c(parse(x)))) and text fixpoint, over generated trees with hostile strings x 20 formatter configurations",
          "Exploration: 5k (quick) / 100k (thorough) documents rendered from random syntax trees with hostile string values, directives in every position (incl. variable definitions), fragment variables and comments are parsed, formatted under every combination of comments x compacted x 5 indents (builtin / no-description flags rotated), re-parsed and compared through an independent AST->model adapter; the second format must reproduce the first byte for byte.",
          "Trusts the model adapter and diff; comments and positions are not compared; relative order of operations vs fragments not compared (formatter emits operations first by design). Two defects found by this check were repaired (fix: commits fc85355, 36779a6).",
